@@ -73,10 +73,10 @@ def _value_table(stmts, var):
     return rows, None
 
 
-def rule_encoder_siblings(ctx):
+def rule_encoder_siblings(ctx, rule_id="C16.encoder-siblings"):
     run = ctx.run
     prog = ctx.prog
-    R = "C16.encoder-siblings"
+    R = rule_id
     mk = prog.func(CAN + "::_make_iterencode")
     rel = mk.module.relpath
     inner = {f.name: f for f in prog.functions.values() if f.parent_func is mk}
@@ -143,10 +143,10 @@ def rule_encoder_siblings(ctx):
     run.floor(R, 20)
 
 
-def rule_key_order(ctx):
+def rule_key_order(ctx, rule_id="C16.key-order"):
     run = ctx.run
     prog = ctx.prog
-    R = "C16.key-order"
+    R = rule_id
     mk = prog.func(CAN + "::_make_iterencode")
     rel = mk.module.relpath
     srt = [c for c in ast.walk(mk.node) if isinstance(c, ast.Call) and call_simple_name(c) == "sorted" and c.args and "items()" in norm(c.args[0])]
@@ -194,10 +194,10 @@ def rule_key_order(ctx):
               function=enc.qualname, expected="iterencode(o, _one_shot=False)", found="changed")
 
 
-def rule_escapes(ctx):
+def rule_escapes(ctx, rule_id="C16.escapes"):
     run = ctx.run
     prog = ctx.prog
-    R = "C16.escapes"
+    R = rule_id
     spec = ctx.spec("rfc8785.json")
     m = prog.module(CAN)
     ev = Evaluator(prog, allow_dyn=True)
@@ -260,10 +260,10 @@ def rule_escapes(ctx):
     # ensure_ascii False on the canonical path: decided with the defaults in C16.key-order
 
 
-def rule_number_constants(ctx):
+def rule_number_constants(ctx, rule_id="C16.number-constants"):
     run = ctx.run
     prog = ctx.prog
-    R = "C16.number-constants"
+    R = rule_id
     fi = prog.func(NUM + "::convert2Es6Format")
     rel = fi.module.relpath
     body = [s for s in fi.node.body if not (isinstance(s, ast.Expr) and isinstance(s.value, ast.Constant))]
@@ -302,9 +302,10 @@ def rule_number_constants(ctx):
     wins = []
     evar = None
     for s in body_walk(fi.node):
-        if isinstance(s, ast.If) and isinstance(s.test, ast.BoolOp) and isinstance(s.test.op, ast.And):
+        if isinstance(s, ast.If) and ((isinstance(s.test, ast.BoolOp) and isinstance(s.test.op, ast.And))
+                                      or (isinstance(s.test, ast.Compare) and len(s.test.ops) == 2)):
             names = {x.id for x in ast.walk(s.test) if isinstance(x, ast.Name)}
-            if len(names) == 1:
+            if len(names) == 1 and not any(isinstance(x, (ast.Call, ast.Attribute, ast.Subscript)) for x in ast.walk(s.test)):
                 v = next(iter(names))
                 try:
                     reg = int_cond(s.test, v)
